@@ -140,7 +140,7 @@ class Check:
             else:
                 self.harness_errors.append(f"{plane or ''} shard {idx}: {status}: {str(res)[-1500:]}")
 
-    def isolate(self, func_path, tasks, results, split, case_of, sig_of, soft: float = 600.0):
+    def isolate(self, func_path, tasks, results, split, case_of, sig_of, soft: float = 600.0, library_alone=None):
         """For every task whose worker died or hung: run each of its cases alone (`split(task)` -> single-case
         tasks).  A case that takes the interpreter down in two fresh processes is a violation with
         `sig_of(single)`/`case_of(single)`; the cases that survive are merged as usual.  Returns the results
@@ -164,7 +164,11 @@ class Check:
                 elif st in ("crash", "hang"):
                     with Pool(1, tag="vpj") as pool:
                         st2, r2 = pool.map(func_path, [s], soft=soft)[0]
-                    if st2 == st:
+                    if st2 == st and library_alone is not None and self._library_dies(library_alone, s):
+                        # (rule 3a) the codec library alone dies / fails on this very input: not the code under check
+                        culprits.append(s)
+                        self.counters["codec_library_death_not_judged"] = self.counters.get("codec_library_death_not_judged", 0) + 1
+                    elif st2 == st:
                         culprits.append(s)
                         self.violation(sig_of(s, st), f"the interpreter {'died (exit %s)' % r2 if st == 'crash' else 'hung'} while processing this case, twice, each time in a fresh process", case_of(s))
                     elif st2 == "ok":
@@ -182,6 +186,14 @@ class Check:
                 if not culprits:
                     self.counters["worker_deaths_depending_on_process_history"] = self.counters.get("worker_deaths_depending_on_process_history", 0) + 1
         return out
+
+    @staticmethod
+    def _library_dies(library_alone, single) -> bool:
+        """library_alone(single) runs in a forked child: True when the child dies/hangs or reports a library defect."""
+        from mc.core.pool import forked
+
+        st, val = forked(library_alone, single, timeout=600)
+        return st in ("crash", "hang") or (st == "ok" and bool(val))
 
     def violation(self, sig: dict, what: str, case):
         self.violations.append({"sig": jsonable(sig), "what": what, "case": jsonable(case)})
